@@ -124,6 +124,41 @@ def by_digit(text):
         return int(text)
     return 0
 '''
+    # lazy-ignores: one suppression per documented pattern switch, plus an orphaned header entry
+    out["st/lazy.py"] = '''"""
+Purpose: lazy-ignores probe
+
+Suppressions:
+    - E999: an entry that no suppression in the code uses (orphaned)
+"""
+import pytest
+
+
+def one(a, b):  # noqa: E501
+    value: int = a  # type: ignore[assignment]
+    other = b  # pylint: disable=invalid-name
+    assert a  # nosec B101
+    third = a.b  # pyright: ignore[reportAttributeAccessIssue]
+    return value + other + third  # thailint: ignore[nesting]
+
+
+@pytest.mark.skip
+def test_skipped():
+    pass
+'''
+    # file-header: a header with only Purpose / Scope / Overview and one temporal word
+    out["st/header.py"] = '''"""
+Purpose: header probe
+
+Scope: the staircase project
+
+Overview: Shows which fields are mandatory. It is currently a probe.
+"""
+
+
+def header_probe(a):
+    return a
+'''
     out["st/logs.py"] = '''def report(a):
     print("value", a)
     return a
@@ -180,7 +215,18 @@ SWEEPS = [
     ("lbyl", "lbyl", "detect_file_exists", [True, False]),
     ("improper-logging", "improper-logging", "allow_in_scripts", [False, True]),
     ("lazy-ignores", "lazy-ignores", "check_noqa", [True, False]),
+    ("lazy-ignores", "lazy-ignores", "check_type_ignore", [True, False]),
+    ("lazy-ignores", "lazy-ignores", "check_pylint_disable", [True, False]),
+    ("lazy-ignores", "lazy-ignores", "check_nosec", [True, False]),
+    ("lazy-ignores", "lazy-ignores", "check_pyright_ignore", [True, False]),
+    ("lazy-ignores", "lazy-ignores", "check_thailint_ignore", [True, False]),
+    ("lazy-ignores", "lazy-ignores", "check_test_skips", [True, False]),
+    ("lazy-ignores", "lazy-ignores", "check_orphaned", [True, False]),
+    ("file-header", "file-header", "mandatory_fields", [["Purpose", "Scope", "Overview", "Zebra"], ["Purpose", "Scope", "Overview"], ["Purpose"]]),
+    ("file-header", "file-header", "check_atemporal", [True, False]),
     ("unwrap-abuse", "unwrap-abuse", "allow_expect", [False, True]),
+    ("blocking-async", "blocking-async", "detect_net_in_async", [True, False]),
+    ("clone-abuse", "clone-abuse", "detect_unnecessary_clone", [True, False]),
     ("clone-abuse", "clone-abuse", "detect_clone_in_loop", [True, False]),
     ("clone-abuse", "clone-abuse", "detect_clone_chain", [True, False]),
     ("blocking-async", "blocking-async", "detect_sleep_in_async", [True, False]),
